@@ -51,7 +51,10 @@ KINDS = {
                       ("character :: x*8", None), ("character :: x*8 = 'unset'", None), ("real :: x(3)", None), ("real :: x[*]", None),
                       ("character, private :: x*4", "private")], [], "variables", "x", True),
     "parameter": ([], [("integer, parameter :: x = 1", None), ("integer, parameter, private :: x = 1", "private"),
-                       ("integer, private, parameter :: x = 1", "private"), ("INTEGER, PARAMETER, PUBLIC :: X = 1", "public")],
+                       ("integer, private, parameter :: x = 1", "private"), ("INTEGER, PARAMETER, PUBLIC :: X = 1", "public"),
+                       # an array constructor with a type-spec holds a `::` of its own
+                       ("integer, parameter, private :: x(3) = [integer :: 2, 3, 5]", "private"),
+                       ("character(len=2), public, parameter :: x(2) = [character(len=2) :: 'a', 'bc']", "public")],
                   [], "variables", "x", False),
     "type": ([], [("type x", None), ("type :: x", None), ("type, public :: x", "public"), ("type, private :: x", "private"),
                   ("TYPE,PRIVATE::X", "private"), ("type, abstract, private :: x", "private"),
